@@ -799,3 +799,169 @@ func (c *Ctx) rulesR3push() {
 		}
 	}
 }
+
+func (c *Ctx) rulesR3ask() {
+	c.rule("C20.ask", "the check helpers tell what happened: processQueue stores the NEGATION of IsAccepted into ACheck.Canceled; helpers.CantAdd and CantRemove both return that field with the same polarity; neither waits on CheckDone unconditionally (a check refused up front — disposed machine, backoff — never closes it); and Machine.CanAdd1/CanRemove1 forward their args")
+	const ph = "pkg/helpers"
+	fCanc := c.field(pm, "ACheck", "Canceled")
+	fAcc := c.field(pm, "Transition", "IsAccepted")
+	pq := c.fnOpt(pm + ":Machine.processQueue")
+	if fCanc == nil || fAcc == nil || pq == nil {
+		return
+	}
+	// polarity at the producer
+	nw := 0
+	for _, w := range writesOfFieldIn(pq, fCanc) {
+		nw++
+		neg := false
+		v := w.Val
+		if u, ok := v.(*ssa.UnOp); ok && u.Op == token.NOT {
+			neg = true
+			v = u.X
+		}
+		fromAcc := false
+		if call, ok := v.(*ssa.Call); ok && isAtomicLoadOf(call, fAcc) {
+			fromAcc = true
+		}
+		c.check(neg && fromAcc, "C20.ask", "processQueue: ACheck.Canceled = !IsAccepted", w.Instr.Pos(), "Canceled is assigned "+render(w.Val)+": the field says the opposite of its name")
+	}
+	if nw < 1 {
+		c.undecided("C20.ask: processQueue no longer writes ACheck.Canceled")
+	}
+	// consumers agree
+	pol := map[string]int{}
+	for _, k := range []string{"CantAdd", "CantRemove"} {
+		f := c.fnOpt(ph + ":" + k)
+		if f == nil {
+			c.undecided("C20.ask: helpers." + k + " not found")
+			continue
+		}
+		// returns deriving from the field
+		for _, r := range returnsOf(f) {
+			for _, v := range retVals(r) {
+				neg := 0
+				x := v
+				for {
+					if u, ok := x.(*ssa.UnOp); ok && u.Op == token.NOT {
+						neg++
+						x = u.X
+						continue
+					}
+					break
+				}
+				if loadOfField(x) == fCanc {
+					if neg%2 == 0 {
+						pol[k] = 1
+					} else {
+						pol[k] = -1
+					}
+				}
+			}
+		}
+		// the receive on CheckDone is conditional on the Can* result
+		for _, b := range f.Blocks {
+			for _, ins := range b.Instrs {
+				u, ok := ins.(*ssa.UnOp)
+				if !ok || u.Op != token.ARROW {
+					continue
+				}
+				cond := false
+				for _, g := range guardsOf(b) {
+					valueTree(g.Cond, 6, func(x ssa.Value) {
+						if call, ok := x.(*ssa.Call); ok && call.Call.IsInvoke() && (call.Call.Method.Name() == "CanAdd" || call.Call.Method.Name() == "CanRemove") {
+							cond = true
+						}
+					})
+				}
+				c.check(cond, "C20.ask", "helpers."+k+" waits for CheckDone only when the check was queued", ins.Pos(), "unconditional receive on CheckDone: blocks forever when Can* refuses the check (disposed machine, backoff)")
+			}
+		}
+	}
+	c.check(pol["CantAdd"] != 0 && pol["CantAdd"] == pol["CantRemove"], "C20.ask", "CantAdd and CantRemove read ACheck.Canceled with the same polarity", token.NoPos, fmt.Sprintf("polarity CantAdd=%d CantRemove=%d (1: as is, -1: negated, 0: not returned)", pol["CantAdd"], pol["CantRemove"]))
+	c.check(pol["CantAdd"] == 1, "C20.ask", "Cant* return Canceled as is", token.NoPos, "with Canceled = !IsAccepted the helpers must return the field, not its negation")
+	// single-state wrappers forward args
+	for _, k := range []string{"CanAdd1", "CanRemove1"} {
+		f := c.fnOpt(pm + ":Machine." + k)
+		if f == nil {
+			continue
+		}
+		var argsP ssa.Value
+		for _, p := range f.Params {
+			if p.Name() == "args" {
+				argsP = p
+			}
+		}
+		fwd := false
+		for _, b := range f.Blocks {
+			for _, ins := range b.Instrs {
+				if ci, ok := ins.(ssa.CallInstruction); ok {
+					for _, a := range ci.Common().Args {
+						if a == argsP {
+							fwd = true
+						}
+					}
+				}
+			}
+		}
+		c.check(fwd && argsP != nil, "C20.ask", "Machine."+k+" forwards its args", f.Pos(), "the args parameter is dropped: arg-dependent negotiation handlers answer differently than for the real mutation")
+	}
+}
+
+func (c *Ctx) rulesR3own() {
+	c.rule("C14.own", "Machine.tracers and Machine.handlers, which are deleted from in place, are never assigned a slice the caller still holds (a parameter or a field of a parameter such as Opts.Tracers) without copying it: two machines built from one Opts value would share the backing array, and a detach on one shifts and nils the other's slots")
+	n := 0
+	for _, fn := range []string{"tracers", "handlers"} {
+		fld := c.field(pm, "Machine", fn)
+		if fld == nil {
+			continue
+		}
+		for i, w := range c.writesOfField(fld) {
+			if w.Kind != "assign" || topFunc(w.Fn).Pkg == nil || relPkg(topFunc(w.Fn).Pkg.Pkg.Path()) != pm {
+				continue
+			}
+			n++
+			var isForeign func(fn *ssa.Function, v ssa.Value, depth int) bool
+			isForeign = func(fn *ssa.Function, v ssa.Value, depth int) bool {
+				return flowsFrom(v, func(x ssa.Value) bool {
+					if p, ok := x.(*ssa.Parameter); ok {
+						if _, isSlice := x.Type().Underlying().(*types.Slice); !isSlice {
+							return false
+						}
+						if isExportedFunc(topFunc(fn)) || depth >= 2 {
+							return true
+						}
+						// an internal helper: judge by what its callers pass
+						idx := -1
+						for i, q := range fn.Params {
+							if q == p {
+								idx = i
+							}
+						}
+						sites, _ := c.allCallersOf(fn)
+						for _, s := range sites {
+							args := s.Instr.Common().Args
+							if idx >= 0 && idx < len(args) && isForeign(s.Fn, args[idx], depth+1) {
+								return true
+							}
+						}
+						return false
+					}
+					if fl := loadOfField(x); fl != nil && fl != fld {
+						if _, isSlice := fl.Type().Underlying().(*types.Slice); isSlice {
+							// a slice field of some other object (e.g. opts.Tracers)
+							if nt := namedOf(fieldOwner(x)); nt != nil && nt.Obj().Name() != "Machine" {
+								return true
+							}
+						}
+					}
+					return false
+				})
+			}
+			foreign := isForeign(w.Fn, w.Val, 0)
+			c.check(!foreign, "C14.own", fmt.Sprintf("%s: Machine.%s store%s is a private slice", funcKey(w.Fn), fn, nth(i)), w.Instr.Pos(), "assigned "+render(w.Val)+" without copying: the caller (or another machine built from the same options) keeps the same backing array")
+		}
+	}
+	if n < 3 {
+		c.undecided(fmt.Sprintf("C14.own: only %d stores to Machine.tracers/handlers found", n))
+	}
+}
